@@ -146,6 +146,8 @@ def setbig(e, p, val, lo=None, hi=None):
     b = Big(val)
     b_lo, b_hi = lo, hi
     e.store_raw(p, b)
+    if getattr(e, 'store_log', None) is not None and getattr(p, 'obj', None) is not None:
+        e.store_log.add(p.obj)       # a write to the receiver of a math/big operation (write-set audit, C17)
     e.big_bounds[id_of(val)] = (b_lo, b_hi, val)
     return p
 
@@ -245,6 +247,8 @@ def install_big(eng, reg):
         return o
 
     def store_raw(p, v):
+        if getattr(eng, 'store_log', None) is not None and p.obj is not None:
+            eng.store_log.add(p.obj)     # a write to the receiver of a math/big operation (write-set audit, C17)
         if len(p.path) == 0:
             eng.heap[p.obj][0] = v
             return
